@@ -1,7 +1,7 @@
 """C09 -- existing outputs are never overwritten and _SUCCESS marks only complete saves.
 
 case = (saver, max_retries, parts, pre, wfaults, cfaults)
-  saver    0 saveAsTextFile, 1 saveAsPickleFile
+  saver    0 saveAsTextFile, 1 saveAsPickleFile; 2, 3: the same, the target given as file:// URL
   parts    text: [[line, ...], ...]; pickle: [(pickle.dumps(elements), elements), ...]  (pickle is a black box
            whose output is handed to the model)
   pre      state of the target path before the save, as faultfs.snapshot: (0,) | (1, bytes) | (2, [((kind, i), bytes)...])
@@ -28,11 +28,11 @@ ID = 'C09'
 KERNELS = ['Gen/SaveOrder.v: text_steps', 'Gen/SaveOrder.v: pickle_steps', 'Gen/SaveOrder.v: runjob_lock_release',
            'Gen/SaveOrder.v: part_name']
 SHARD = 120
-TEXT, PICKLE = 0, 1
+TEXT, PICKLE = 0, 1   # + 2: the same saver called with a file:// URL of the target
 ABSENT = (0,)
 
 RULE = ('cases (saver, max_retries, partitions, pre-state, write-fault plan, compute-fault plan). Exhaustive part: '
-        'text and pickle savers x n = 1..5 partitions (6 in the thorough tier) x every crash point k = 0..n (part files '
+        'text and pickle savers (also called with a file:// URL of the target) x n = 1..5 partitions (6 in the thorough tier) x every crash point k = 0..n (part files '
         'and marker; the single file for n = 1) x failure modes {before, after mkdir, torn after 0 / 1 / all bytes} x '
         '{max_retries 1; max_retries 2 with the fault on one attempt (masked by the retry); max_retries 2, 3 with the '
         'fault on every attempt}; computation of partition k failing on every attempt and on the first attempts only, '
@@ -65,19 +65,19 @@ atexit.register(_cleanup)
 
 
 def _elements(saver, part):
-    return list(part) if saver == TEXT else list(part[1])
+    return list(part) if saver % 2 == TEXT else list(part[1])
 
 
 def _content(saver, part):
     """What the part file of this partition must hold (oracle's own rendering)."""
-    if saver == TEXT:
+    if saver % 2 == TEXT:
         return ''.join(f'{line}\n' for line in part).encode('utf8')
     return pickle.dumps(list(part[1]))
 
 
 def kind(case):
     saver, m, parts, pre, wf, cf = case
-    s = 'text' if saver == TEXT else 'pickle'
+    s = ('text' if saver % 2 == TEXT else 'pickle') + ('-url' if saver >= 2 else '')
     p = ['absent', 'file', 'dir'][pre[0]]
     f = ('w' if wf else '') + ('c' if cf else '') or 'nofault'
     return f'{s}/{p}/{f}'
@@ -90,6 +90,7 @@ def impl(case):
     d = os.path.join(_BASE, str(next(_counter)))
     os.makedirs(d)
     target = os.path.join(d, 'out')
+    url = ('file://' if saver >= 2 else '') + target
     try:
         faultfs.materialise(target, pre)
         ctx = Context(max_retries=m)
@@ -99,10 +100,10 @@ def impl(case):
         outcome = None
         with faultfs.FaultFS(target, wfaults) as ff:
             try:
-                if saver == TEXT:
-                    rdd.saveAsTextFile(target)
+                if saver % 2 == TEXT:
+                    rdd.saveAsTextFile(url)
                 else:
-                    rdd.saveAsPickleFile(target)
+                    rdd.saveAsPickleFile(url)
             except Exception as e:  # pylint: disable=broad-except
                 outcome = Err(type(e).__name__)
         final = faultfs.snapshot(target)
@@ -117,7 +118,7 @@ def impl(case):
         if outcome is None or (pre == ABSENT and _has_marker(final)):
             try:
                 c2 = Context()
-                read = (c2.textFile(target) if saver == TEXT else c2.pickleFile(target)).collect()
+                read = (c2.textFile(url) if saver % 2 == TEXT else c2.pickleFile(url)).collect()
             except Exception as e:  # pylint: disable=broad-except
                 read = Err(type(e).__name__)
         names = sorted(os.listdir(target), key=lambda x: x.encode()) if os.path.isdir(target) else []
@@ -141,7 +142,7 @@ def oracle(case, result):
     saver, m, parts, pre, wfaults, cfaults = case
     pre = tuple(pre)
     n = len(parts)
-    site = 'saveAsTextFile' if saver == TEXT else 'saveAsPickleFile'
+    site = 'saveAsTextFile' if saver % 2 == TEXT else 'saveAsPickleFile'
     if isinstance(result, Err):
         return (f'{site}:harness', f'could not observe: {result}')
     outcome, final, hist, calls, locked, follow, read, names = result
@@ -225,7 +226,7 @@ def _mk_parts(rng, saver, n):
     parts = []
     for _ in range(n):
         k = rng.choice([0, 1, 1, 2, 3])
-        if saver == TEXT:
+        if saver % 2 == TEXT:
             parts.append([rng.choice(_WORDS) for _ in range(k)])
         else:
             els = [rng.choice([0, 1, -1, 7, 'a', 'bc', None, 2.5, (1, 'x')]) for _ in range(k)]
@@ -288,6 +289,14 @@ def generate(rng, tier):
                     cases.append((saver, m, parts, ABSENT, [], [(k, a) for a in range(1, m + 1)]))
                     if m > 1:
                         cases.append((saver, m, parts, ABSENT, [], [(k, a) for a in range(1, m)]))
+            # the same through a file:// URL of the target
+            if n <= 2:
+                for k in ([0, 1, 2] if n == 2 else [0]):
+                    cases.append((saver + 2, 1, parts, ABSENT, [(k, TORN, 1)], []))
+                for pre in _pre_states(rng, saver)[:4]:
+                    cases.append((saver + 2, 1, parts, pre, [], []))
+                cases.append((saver + 2, 2, parts, ABSENT, [], [(0, 1), (0, 2)]))
+                cases.append((saver + 2, 2, parts, ABSENT, [], []))
             # target pre-states
             if n <= 3 or not quick:
                 for pre in _pre_states(rng, saver):
@@ -296,7 +305,7 @@ def generate(rng, tier):
                     cases.append((saver, 1, parts, pre, [], [(0, 1)]))
     # random plans
     for _ in range(700 if quick else 8000):
-        saver = rng.choice((TEXT, PICKLE))
+        saver = rng.choice((TEXT, PICKLE)) + rng.choice((0, 0, 2))
         n = rng.choice([1, 2, 2, 3, 3, 4, 5, 6, 8]) if not quick else rng.choice([1, 2, 2, 3, 3, 4, 5])
         m = rng.choice([1, 1, 2, 2, 3, 4])
         parts = _mk_parts(rng, saver, n)
@@ -355,5 +364,5 @@ def shrink_candidates(case):
         els = _elements(saver, p)
         if els:
             q = els[:-1]
-            np_ = q if saver == TEXT else (pickle.dumps(list(q)), q)
+            np_ = q if saver % 2 == TEXT else (pickle.dumps(list(q)), q)
             yield (saver, m, parts[:i] + [np_] + parts[i + 1:], pre, wf, cf)
